@@ -1,10 +1,12 @@
 import EmsModel.Core.GeomProto
 import EmsModel.Core.GeomCover
+import EmsModel.Core.ConvReads
 import EmsModel.Core.NpProto
 /-! Line-protocol driver for C06 (polygons, mask, bounds faithful to the coordinates).
 See `Core/GeomProto.lean` for the operations on the comprehension models (`polys`, `centres`, `valid`, `pip`,
 `cf1dgeom`), `Core/GeomCover.lean` for `cf1dcover` (the point set of the overall geometry of a CF 1-D grid on a
-lattice of probe points) and `Core/NpProto.lean` for the `pipe …` operations, which run the numpy pipelines
+lattice of probe points), `Core/ConvReads.lean` for `reads <accessors> polys …` (one convention object read through its
+cached accessors in the given order) and `Core/NpProto.lean` for the `pipe …` operations, which run the numpy pipelines
 generated from the source (`Gen/Pipelines.lean`). -/
 open Ems Ems.Proto
 def step (line : String) : String :=
@@ -13,5 +15,8 @@ def step (line : String) : String :=
   | none =>
     match Ems.GeomProto.coverStep? (words line) with
     | some r => r
-    | none => (Ems.GeomProto.step? (words line)).getD "BAD"
+    | none =>
+      match Ems.GeomProto.readsStep? (words line) with
+      | some r => r
+      | none => (Ems.GeomProto.step? (words line)).getD "BAD"
 def main : IO Unit := loop step
